@@ -178,6 +178,22 @@ def query (c : Chain) : List String → Option String
   | ["mirror"] => some (mirrorStr c.mirror)
   | _ => none
 
+/-- `bootcrash <k1> <k2|-> <genesis…>`: wipe; first start-up cut after `k1` writes; if the store
+    then still has no last-group pointer and `k2` is given, the next start-up (genesis branch
+    again) is cut after `k2` writes; finally a start-up that runs to the end. -/
+def bootCrash (gs : List Group) (k1 : Nat) (k2 : Option Nat) : DState × String :=
+  let s0 : DState := { boot := none, genesis := gs }
+  match firstBootB [] [] gs k1 with
+  | none => (s0, "unmodelled")
+  | some (.done c _) => afterRun s0 "done" (.done c 0)
+  | some (.crashed d1 m1) =>
+    match k2, firstBootB d1 m1 gs (k2.getD 0) with
+    | some _, some (.done c _) => afterRun s0 "crashed done" (.done c 0)
+    | some _, some (.crashed d2 m2) =>
+      let (s', r) := afterRun s0 "" (.crashed d2 m2)
+      (s', if r == "unmodelled" then r else "crashed " ++ r)
+    | _, _ => afterRun s0 "" (.crashed d1 m1)
+
 def isMutator : List String → Bool
   | "add" :: _ => true
   | "cadd" :: _ => true
@@ -193,6 +209,10 @@ def step (s : DState) (line : String) : DState × String :=
     | some gs =>
       let b := restart [] [] gs
       ({ boot := b, genesis := gs }, bootStr b)
+  | "bootcrash" :: k1 :: k2 :: toks =>
+    match parseNat? k1, (if k2 == "-" then some none else (parseNat? k2).map some), parseAll parseGenesis toks with
+    | some k1, some k2, some (g :: gs) => bootCrash (g :: gs) k1 k2
+    | _, _, _ => (s, "bad-op")
   | ws =>
     match s.boot with
     | none => (s, if ws.isEmpty then "bad-op" else "unmodelled")
